@@ -204,11 +204,16 @@ func c13Check(x *mc.Exec, e *c13Expect, r *vrt.Result) {
 	}
 	switch {
 	case grant < bound:
-		if !e.returned || !e.granted {
-			x.Fail(fam+"/not-granted-before-bound", "%s: capacity was offered at %d, before the bound %d, but returned=%v granted=%v at %d; stuck=%v",
-				e.desc, grant, bound, e.returned, e.granted, e.retClock, r.StuckInfo)
-		} else if e.retClock != grant {
-			x.Fail(fam+"/grant-late", "%s: granted at %d, capacity was offered at %d", e.desc, e.retClock, grant)
+		// capacity is offered before the bound. Whether the caller picks it up promptly is C10's
+		// question; C13 only bounds the wait: it returns by its bound, and is not refused before
+		// anything was offered
+		switch {
+		case !e.returned || e.retClock > bound:
+			x.Fail(fam+"/blocks-past-bound", "%s: still blocked after the bound %d (returned=%v granted=%v at %d); parked: %v", e.desc, bound, e.returned, e.granted, e.retClock, r.StuckInfo)
+		case !e.granted && e.retClock < grant:
+			x.Fail(fam+"/refused-early", "%s: refused at %d, before the bound %d and before any capacity was offered (%d)", e.desc, e.retClock, bound, grant)
+		case e.granted && e.retClock < grant:
+			x.Fail(fam+"/granted-without-capacity", "%s: granted at %d although capacity was only offered at %d", e.desc, e.retClock, grant)
 		}
 	case grant == bound:
 		// tie: either outcome, at that instant
